@@ -84,12 +84,14 @@ func buildGroups(r *ev.Run) []*group {
 		MaxEnq: 5, Wait: true, Scripts: noFault, Prefix: 2, Veto: noEnqAfterTime})
 	// timing: enqueues interleaved with ticks and one half tick
 	gs = append(gs, &group{Name: "timing", Ms: []int{2, 3}, Compress: true, Dests: []string{"A", "B"}, Sizes: []int{szSmall},
-		MaxEnq: ev.Pick(r, 3, 4), MaxAdv: ev.Pick(r, 7, 8), Half: true, Scripts: noFault, Prefix: 2})
+		MaxEnq: ev.Pick(r, 3, 4), MaxAdv: ev.Pick(r, 6, 8), Half: true, Scripts: noFault, Prefix: 2})
 	// event size limit: every size class in every batch position, fault-free and with one fault on the first request
 	first := scripts(1, []answer{{Kind: "timeout"}, {Kind: "429", RA: "1"}, {Kind: "500"}, {Kind: "short"}}, nil)
 	gs = append(gs, &group{Name: "sizes", Ms: []int{1, 2, 3}, Compress: true, Dests: []string{"A", "B"},
 		Sizes: []int{szSmall, sz099, szMax, szOver1, sz101}, MaxEnq: ev.Pick(r, 3, 4), Wait: true, Scripts: first, Prefix: 1,
-		Veto: func(h []step, s step) bool { return noEnqAfterTime(h, s) || (s.Op == "enq" && s.Dest == "B" && s.Size != szSmall) }})
+		Veto: func(h []step, s step) bool {
+			return noEnqAfterTime(h, s) || (s.Op == "enq" && s.Dest == "B" && s.Size != szSmall)
+		}})
 	// 5 MB body limit: needs MaxBatchSize ≥ 5 (a batch of ≤ 3 events of ≤ 1 MB cannot reach it)
 	splitSizes := []int{szMax, szSmall}
 	splitScripts := [][]answer{{}, {{Kind: "timeout"}}, {ok, {Kind: "timeout"}}, {{Kind: "429"}}, {{Kind: "500"}}, {ok, {Kind: "short"}}}
@@ -98,13 +100,27 @@ func buildGroups(r *ev.Run) []*group {
 		splitScripts = scripts(2, faultKindsReduced(), faultKindsReduced())
 	}
 	gs = append(gs, &group{Name: "split5MB", Ms: []int{5, 6}, Compress: false, Dests: []string{"A"}, Sizes: splitSizes,
-		MaxEnq: 6, Wait: true, Scripts: splitScripts, Prefix: 2, Veto: noEnqAfterTime})
+		MaxEnq: 6, Wait: true, Scripts: splitScripts, Prefix: 2,
+		Veto: func(h []step, s step) bool {
+			if noEnqAfterTime(h, s) {
+				return true
+			}
+			if th || s.Op != "enq" || s.Size != szSmall {
+				return false
+			}
+			for _, x := range h { // quick tier: at most one small event among the 1 MB ones
+				if x.Op == "enq" && x.Size == szSmall {
+					return true
+				}
+			}
+			return false
+		}})
 	// fault scripts: ≤ 3 answers, ≤ 2 faults
-	pairs := faultKindsReduced()
+	pairs := []answer{{Kind: "everr"}, {Kind: "500"}, {Kind: "timeout"}, {Kind: "429", RA: ""}, {Kind: "503", RA: "59"}, {Kind: "429", RA: "60"}}
 	if th {
 		pairs = faultKinds(true)
 	}
 	gs = append(gs, &group{Name: "faults", Ms: []int{1, 2}, Compress: true, Dests: []string{"A", "B"}, Sizes: []int{szSmall},
-		MaxEnq: 3, MaxAdv: ev.Pick(r, 5, 7), Scripts: scripts(3, faultKinds(th), pairs), Prefix: 0})
+		MaxEnq: 3, MaxAdv: ev.Pick(r, 4, 7), Scripts: scripts(3, faultKinds(th), pairs), Prefix: 0})
 	return gs
 }
